@@ -381,4 +381,10 @@ theorem flatten_injective (ch ch' : Chain E) (wf : FlatWF ch) (wf' : FlatWF ch')
     exact (Json.contract_injective (Json.toBytes_injective this)).symm
   · rw [← flatten_store ch wf a k ha, h, flatten_store ch' wf' a k ha]
 
+/-- the driver's check implies the hypothesis of the theorems above (it runs on every state the driver flattens) -/
+theorem wfCheck_sound (ch : Chain E) (h : wfCheck ch = true) : FlatWF ch := by
+  simp only [wfCheck, Bool.and_eq_true, decide_eq_true_eq, List.all_eq_true] at h
+  obtain ⟨⟨⟨h1, h2⟩, h3⟩, h4⟩ := h
+  exact ⟨h1, h2, h3, fun p hp => (h4 p hp).1, fun p hp => (h4 p hp).2⟩
+
 end CwMt.Flat
